@@ -100,44 +100,59 @@ func brokerWorkload(w *W, h *Hist, bs *brokerSetup, faults bool) ([]*pubRec, []*
 	burst := simrt.Choose(2) == 1 // publishers do not yield between messages
 	var pubs []*pubRec
 	var subs []*subRec
+	nextSubID := nSubs
+	var runSub func(sr *subRec, delay, unsubAt int, again bool)
+	runSub = func(sr *subRec, delay, unsubAt int, again bool) {
+		for i := 0; i < delay; i++ {
+			simrt.Yield()
+		}
+		ch := bs.b.Subscribe(sr.ctx)
+		if ch == nil {
+			sr.ctlDone = true
+			return
+		}
+		sr.subRet = h.Tick()
+		sr.subscribed = true
+		stop := false
+		simrt.Spawn(fmt.Sprintf("sub%d-recv", sr.id), func() {
+			for !stop {
+				v, ok := hrecv(ch)
+				if !ok {
+					return
+				}
+				sr.got = append(sr.got, delivery{v, h.Tick()})
+			}
+		})
+		if sr.unsubPlan {
+			simrt.WaitStep(unsubAt)
+			sr.unsubInvoke = h.Tick()
+			bs.b.Unsubscribe(sr.ctx, ch)
+			sr.unsubRet = h.Tick()
+			if sr.stopRecv {
+				stop = true
+			}
+			if again {
+				// the same client subscribes again: a new channel with a window
+				// of its own (nothing from before may be replayed into it twice)
+				nsr := &subRec{id: nextSubID}
+				nextSubID++
+				nsr.ctx, nsr.cancel = sr.ctx, sr.cancel
+				subs = append(subs, nsr)
+				sr.ctlDone = true
+				runSub(nsr, 0, 0, false)
+				return
+			}
+		}
+		sr.ctlDone = true
+	}
 	for s := 0; s < nSubs; s++ {
 		sr := &subRec{id: s, unsubPlan: simrt.Choose(3) == 0, stopRecv: faults && simrt.Choose(3) == 0}
 		sr.ctx, sr.cancel = context.WithCancel(w.Ctx)
 		delay := simrt.Choose(3)
 		unsubAt := simrt.Choose(150)
+		again := sr.unsubPlan && simrt.Choose(2) == 0
 		subs = append(subs, sr)
-		simrt.Spawn(fmt.Sprintf("sub%d-control", s), func() {
-			for i := 0; i < delay; i++ {
-				simrt.Yield()
-			}
-			ch := bs.b.Subscribe(sr.ctx)
-			if ch == nil {
-				sr.ctlDone = true
-				return
-			}
-			sr.subRet = h.Tick()
-			sr.subscribed = true
-			stop := false
-			simrt.Spawn(fmt.Sprintf("sub%d-recv", s), func() {
-				for !stop {
-					v, ok := hrecv(ch)
-					if !ok {
-						return
-					}
-					sr.got = append(sr.got, delivery{v, h.Tick()})
-				}
-			})
-			if sr.unsubPlan {
-				simrt.WaitStep(unsubAt)
-				sr.unsubInvoke = h.Tick()
-				bs.b.Unsubscribe(sr.ctx, ch)
-				sr.unsubRet = h.Tick()
-				if sr.stopRecv {
-					stop = true
-				}
-			}
-			sr.ctlDone = true
-		})
+		simrt.Spawn(fmt.Sprintf("sub%d-control", s), func() { runSub(sr, delay, unsubAt, again) })
 	}
 	for p := 0; p < nPubs; p++ {
 		k := 1 + simrt.Choose(4)
